@@ -59,7 +59,7 @@ def swarm(rng: random.Random, prop: str, tier: str) -> dict:
         "flags": {k: True for k in ("bursty", "wild_edges", "division_bias", "explicit_tracks", "iou_toggle", "toggle_ids", "trap", "io", "subs") if p.get(k)},
         "subset": p.get("subset", 0.5),
         "f2": rng.choice([0.0, 0.0, 0.6]) if p.get("io") else 0.0,
-        "sweep": 0.15 if (p.get("io") and tier == "thorough") else 0.0,
+        "sweep": 0.15 if (prop in ("C14", "C16") and tier == "thorough") else 0.0,
     }
     return cfg
 
@@ -166,6 +166,10 @@ def gen_op(rng: random.Random, cfg: dict, kind: str | None = None) -> dict:
                   allow_ids=bool(fl.get("toggle_ids")) and rng.random() < 0.5)
         if fl.get("iou_toggle") and rng.random() < 0.7:
             op["keys"] = ["@iou"]
+        if kind == "enable" and fl.get("toggle_ids") and rng.random() < 0.3:
+            # register without computing first ("values already exist"), then enable with
+            # recomputation: the second call must still bring every value up to date
+            op["pre_norecompute"] = True
     elif kind == "primitive":
         op.update(kind=rng.choice(PRIMS), t=rng.randrange(12), k=rng.randrange(64), j=rng.randrange(64),
                   added=rng.random() < 0.5, lineage=rng.random() < 0.5, score=rng.random() < 0.5,
